@@ -5,6 +5,7 @@ package stringx
 
 import (
 	"fmt"
+	"os"
 	"strconv"
 	"strings"
 	"testing"
@@ -48,7 +49,12 @@ func c20Capital(w string) string { return string(w[0]-('a'-'A')) + w[1:] }
 // stay lower-case: both forms are "camel case").
 func TestVerif_C20_camel_roundtrip(t *testing.T) {
 	word := rapid.Custom(func(rt *rapid.T) string {
-		switch k := rapid.IntRange(0, 9).Draw(rt, "wk"); {
+		switch k := rapid.IntRange(0, 11).Draw(rt, "wk"); {
+		case k >= 10:
+			// word starts that are digraphs / dotted letters in languages with
+			// special title-casing rules (nl ij, tr/az i, hr lj nj dz, lt i)
+			return rapid.SampledFrom([]string{"ij", "i", "lj", "nj", "dz", "ijs", "ijsberg", "istanbul", "ik", "ljubav", "njegos", "dzwon", "ii", "iji"}).Draw(rt, "digraph") +
+				rapid.StringMatching(`[a-z]{0,4}`).Draw(rt, "rest")
 		case k < 2:
 			return rapid.StringMatching(`[a-z]`).Draw(rt, "w")
 		case k < 9:
@@ -95,6 +101,15 @@ func c20RoundTrip(ws []string) (v kit.Verdict) {
 	}
 	if single {
 		v.Classes = append(v.Classes, "single-letter-word")
+	}
+	for _, w := range ws {
+		if strings.HasPrefix(w, "ij") || strings.HasPrefix(w, "lj") || strings.HasPrefix(w, "nj") || strings.HasPrefix(w, "dz") || strings.HasPrefix(w, "i") {
+			v.Classes = append(v.Classes, "digraph-or-i-start")
+			break
+		}
+	}
+	if l := os.Getenv("LC_ALL"); l != "" {
+		v.Classes = append(v.Classes, "LC_ALL="+l)
 	}
 	v.NonTrivial = len(ws) >= 2
 
